@@ -882,6 +882,23 @@ pub fn is_same_element(e1: &Element, e2: &Element) -> Result<()> {
     }
 }
 
+#[cfg(mathcat_verif)]
+/// Verification hooks (compiled only with `--cfg mathcat_verif`)
+pub mod verif {
+    use super::*;
+    /// parse, trim and run add_ids (no canonicalization); returns the MathML string
+    pub fn add_ids_only(mathml_str: &str) -> Result<String> {
+        let package = match parser::parse(mathml_str) {
+            Ok(package) => package,
+            Err(e) => bail!("Invalid MathML input: {}", e),
+        };
+        let mathml = get_element(&package);
+        trim_element(&mathml);
+        let mathml = add_ids(mathml);
+        return Ok(mml_to_string(&mathml));
+    }
+}
+
 #[cfg(test)]
 mod tests {
     #[allow(unused_imports)]
